@@ -343,6 +343,11 @@ func (ex *Exec) decodeOpts(name string, v Value, fn *ssa.Function, idx int) *JSO
 			for j := 0; j < sl.Len; j++ {
 				o.StrPool = append(o.StrPool, mustStr(sl.Arr.E[sl.Off+j].V))
 			}
+		case "ValPool":
+			sl := f.(Slice)
+			for j := 0; j < sl.Len; j++ {
+				o.ValPool = append(o.ValPool, mustStr(sl.Arr.E[sl.Off+j].V))
+			}
 		}
 	}
 	if o.Tags == 0 {
@@ -354,8 +359,8 @@ func (ex *Exec) decodeOpts(name string, v Value, fn *ssa.Function, idx int) *JSO
 	if o.Width == 0 {
 		o.Width = 2
 	}
-	ex.bounds[name] = fmt.Sprintf("depth<=%d width<=%d nodes<=%d tags=%s leaf=%s novar=%v finite=%v pool=%v strlen<=%d",
-		o.Depth, o.Width, o.Nodes, tagSet(o.Tags), tagSet(o.Leaf), o.NoVar, o.Finite, o.StrPool, ex.cfg.StrMax)
+	ex.bounds[name] = fmt.Sprintf("depth<=%d width<=%d nodes<=%d tags=%s leaf=%s novar=%v finite=%v keypool=%v valpool=%v strlen<=%d",
+		o.Depth, o.Width, o.Nodes, tagSet(o.Tags), tagSet(o.Leaf), o.NoVar, o.Finite, o.StrPool, o.ValPool, ex.cfg.StrMax)
 	return o
 }
 
